@@ -4,7 +4,6 @@ package verifharness
 
 import (
 	"fmt"
-	"sort"
 	"strings"
 	"testing"
 	"time"
@@ -12,7 +11,6 @@ import (
 	sdk "github.com/cosmos/cosmos-sdk/types"
 
 	chain "github.com/comdex-official/comdex/app"
-	"github.com/comdex-official/comdex/x/auctionsV2"
 	auctypes "github.com/comdex-official/comdex/x/auctionsV2/types"
 	liqtypes "github.com/comdex-official/comdex/x/liquidationsV2/types"
 	vaulttypes "github.com/comdex-official/comdex/x/vault/types"
@@ -322,7 +320,6 @@ func TestC10(t *testing.T) {
 	bidders := []sdk.AccAddress{addrN(10), addrN(11), addrN(12)}
 	owners := []sdk.AccAddress{addrN(20), addrN(21)}
 	liquidator, initiator, funder := addrN(30), addrN(31), addrN(32)
-	null := sdk.AccAddress{}
 
 	for ci := 0; ci < ncases; ci++ {
 		// ---- draw every random parameter of the case first (corpus cases consume no randomness)
@@ -398,104 +395,24 @@ func TestC10(t *testing.T) {
 			}
 			execMsg(a, ctx, liqtypes.NewMsgAppReserveFundsRequest(funder.String(), f.app, f.assetD, sdk.NewCoin(f.denomD, amt)))
 		}
-		supply0 := supply(a, ctx, f.denomD)
 
-		tr.p("case %d %s %s %d %d %s %d %d", ci, p.premium.BigInt(), p.disc.BigInt(), p.dur, p.minUsd, p.ki.BigInt(), p.dc, p.dd)
-		// the order in which GetUserLimitBidDataByPremium lists the bidders: by the address string in the store key
-		border := []int{0, 1, 2}
-		sort.Slice(border, func(i, j int) bool { return bidders[border[i]].String() < bidders[border[j]].String() })
-		tr.p("order %d %d %d", border[0], border[1], border[2])
-		bidderIdx := map[string]int{}
-		for i, b := range bidders {
-			bidderIdx[b.String()] = i
-		}
-		type limKey struct {
-			prem int64
-			who  int
-		}
-		var limKeys []limKey
-		limSeen := map[limKey]bool{}
-		lastBidID := a.NewaucKeeper.GetUserBidID(ctx)
-
-		now := int64(0)
-		twaC, twaDcur := twaC0, twaD
-		actC, actD := true, true
-		var live []c10Auction
-
-		observe := func() {
-			c := c10At(ctx, now)
-			ownC := sdk.ZeroInt()
-			for _, o := range owners {
-				ownC = ownC.Add(bal(a, c, o, f.denomC))
-			}
-			rs, rfound := a.NewliqKeeper.GetAppReserveFunds(c, f.app, f.assetD)
-			rsAmt := sdk.ZeroInt()
-			if rfound {
-				rsAmt = rs.TokenQuantity.Amount
-			}
-			xf, xfound := a.NewaucKeeper.GetAuctionLimitBidFeeDataExternal(c, f.assetD)
-			xfAmt := sdk.ZeroInt()
-			if xfound {
-				xfAmt = xf.Amount
-			}
-			var sb strings.Builder
-			for _, b := range bidders {
-				fmt.Fprintf(&sb, " %s %s", bal(a, c, b, f.denomC), bal(a, c, b, f.denomD))
-			}
-			// the limit-bid pool of the market and the collector's net-fee book of (app, debt asset)
-			pd, pfound := a.NewaucKeeper.GetLimitBidProtocolDataByAssetID(c, f.assetD, f.assetC)
-			pool := sdk.ZeroInt()
-			if pfound {
-				pool = pd.BidValue
-			}
-			nfd, nffound := a.CollectorKeeper.GetNetFeeCollectedData(c, f.app, f.assetD)
-			nf := sdk.ZeroInt()
-			if nffound {
-				nf = nfd.NetFeesCollected
-			}
-			tr.p("L %s %s %s %s %s %s %s %s %s 0%s %s %s %s %s %s %s %s",
-				bal(a, c, modAddr(auctypes.ModuleName), f.denomC), bal(a, c, modAddr(auctypes.ModuleName), f.denomD), ownC,
-				bal(a, c, modAddr("collectorV1"), f.denomD), bal(a, c, liquidator, f.denomD), bal(a, c, initiator, f.denomD),
-				bal(a, c, null, f.denomD), bal(a, c, modAddr(liqtypes.ModuleName), f.denomD), supply0.Sub(supply(a, c, f.denomD)),
-				sb.String(), b2s(rfound), rsAmt, xfAmt, b2s(pfound), pool, b2s(nffound), nf)
-			// the limit bids of the market (every key ever deposited to)
-			for _, k := range limKeys {
-				if rec, found := a.NewaucKeeper.GetUserLimitBidData(c, f.assetD, f.assetC, sdk.NewInt(k.prem), bidders[k.who].String()); found {
-					tr.p("R %d %d %s", k.prem, k.who, rec.DebtToken.Amount)
-				}
-			}
-			// the user bids created since the last observation (market bids and the automatic bids of fills)
-			for id := lastBidID + 1; id <= a.NewaucKeeper.GetUserBidID(c); id++ {
-				if ub, err := a.NewaucKeeper.GetUserBid(c, id); err == nil {
-					w, known := bidderIdx[ub.BidderAddress]
-					if !known {
-						w = 99
-					}
-					tr.p("U %d %d %d %s %s", id, ub.AuctionId, w, ub.DebtTokenAmount.Amount, ub.CollateralTokenAmount.Amount)
-				}
-			}
-			lastBidID = a.NewaucKeeper.GetUserBidID(c)
-			for _, au := range a.NewaucKeeper.GetAuctions(c) {
-				tr.p("A %d %s %s %s %s %s %s %s %d %d", au.AuctionId, au.CollateralToken.Amount, au.DebtToken.Amount, au.BonusAmount,
-					au.CollateralTokenAuctionPrice.BigInt(), au.CollateralTokenInitialPrice.BigInt(), au.CollateralTokenOraclePrice.BigInt(),
-					au.DebtTokenOraclePrice.BigInt(), c10Unix(au.StartTime), c10Unix(au.EndTime))
-			}
-			tr.p("E")
-		}
+		e := &c10Run{t: t, a: a, ctx: ctx, tr: tr, p: p, app: f.app, assetC: f.assetC, assetD: f.assetD, denomC: f.denomC, denomD: f.denomD,
+			bidders: bidders, owners: owners, liquidator: liquidator, initiator: initiator, twaC: twaC0, twaDcur: twaD, actC: true, actD: true, debug: debug}
+		e.begin(ci)
 
 		start := func(i int) {
 			if ps[i].started || !ps[i].valid {
 				return
 			}
 			ps[i].started = true
-			c := c10At(ctx, now)
+			c := c10At(ctx, e.now)
 			before := a.NewaucKeeper.GetAuctionID(c)
 			var class string
 			switch ps[i].kind {
 			case 0, 1:
 				// the collateral price falls; the position becomes liquidatable
-				twaC = ps[i].dropPrice
-				setPrice(a, c, f.assetC, twaC, actC)
+				e.twaC = ps[i].dropPrice
+				setPrice(a, c, f.assetC, e.twaC, e.actC)
 				if ps[i].kind == 0 {
 					class, _, _ = execMsg(a, c, liqtypes.NewMsgLiquidateInternalKeeperRequest(liquidator, 0, ps[i].vaultID))
 				} else {
@@ -517,252 +434,24 @@ func TestC10(t *testing.T) {
 			}
 			after := a.NewaucKeeper.GetAuctionID(c)
 			if class == "ok" && after == before+1 {
-				au, _ := a.NewaucKeeper.GetAuction(c, after)
-				lk, _ := a.NewliqKeeper.GetLockedVault(c, f.app, au.LockedVaultId)
-				it := map[string]int{"vault": 0, "lend": 1, "external": 2}[lk.InitiatorType]
-				tr.p("op start %d %s %s %s %s %d %s %s %d %s %d %s %d ok", after, lk.CollateralToken.Amount, lk.TargetDebt.Amount, lk.FeeToBeCollected,
-					lk.BonusToBeGiven, it, b2s(lk.IsInternalKeeper), b2s(lk.IsDebtCmst), now, b2s(actC), twaC, b2s(actD), twaDcur)
-				live = append(live, c10Auction{after, au.LockedVaultId})
+				e.emitStart(after)
 			} else {
-				tr.p("op nostart %d %s %d %s %d %s %d %s", ps[i].kind, class, now, b2s(actC), twaC, b2s(actD), twaDcur, b2s(after != before))
+				tr.p("op nostart %d %s %d %s %d %s %d %s", ps[i].kind, class, e.now, b2s(e.actC), e.twaC, b2s(e.actD), e.twaDcur, b2s(after != before))
 			}
-			observe()
+			e.observe()
 		}
 
 		start(0)
 		for _, o := range plan {
-			c := c10At(ctx, now)
 			switch o.kind {
 			case 2:
 				start(1)
 			case 1:
-				// time advances, prices may change, then the auctionsV2 BeginBlocker runs
-				var dt int64
-				switch {
-				case o.lit:
-					dt = o.v1
-				default:
-					switch o.dtClass {
-					case 0:
-						dt = 0
-					case 1:
-						dt = 1
-					case 2:
-						dt = 5
-					case 3:
-						dt = int64(p.dur) / 4
-					case 4:
-						dt = int64(p.dur) / 2
-					case 5, 6: // exactly to the end time of the oldest live auction (t = D), or one past it
-						aus := a.NewaucKeeper.GetAuctions(c)
-						if len(aus) > 0 {
-							dt = c10Unix(aus[0].EndTime) - now
-							if o.dtClass == 6 {
-								dt++
-							}
-							if dt < 0 {
-								dt = 0
-							}
-						}
-					case 7:
-						dt = 2*int64(p.dur) + 1
-					case 9, 10, 11, 12:
-						// the next instant at which a live auction's discount meets a limit bid, searched on throw-away
-						// contexts with the real price update; the oracle prices stay as they are for this tick
-						dt = int64(1 + o.f1%7)
-						aus := a.NewaucKeeper.GetAuctions(c)
-						if len(aus) > 0 && len(limKeys) > 0 {
-							step := int64(p.dur) / 120
-							if step < 1 {
-								step = 1
-							}
-							last := c10Unix(aus[0].EndTime)
-						search:
-							for t, n := now+1, 0; t <= last && n < 130; t, n = t+step, n+1 {
-								cc, _ := c10At(ctx, t).CacheContext()
-								if pn, _ := safely(func() { _ = a.NewaucKeeper.AuctionIterator(cc) }); pn {
-									continue
-								}
-								for _, au := range a.NewaucKeeper.GetAuctions(cc) {
-									if pr, ok := c10Discount(au); ok {
-										if _, found := a.NewaucKeeper.GetUserLimitBidDataByPremium(cc, f.assetD, f.assetC, pr); found {
-											dt = t - now
-											break search
-										}
-									}
-								}
-							}
-						}
-					default:
-						dt = int64(1 + o.f1%7)
-					}
-				}
-				now += dt
-				switch {
-				case o.lit || (o.dtClass >= 9 && o.dtClass <= 12):
-				case o.priceClass == 0:
-					actC = !actC
-				case o.priceClass == 1:
-					actD = !actD
-				case o.priceClass <= 4:
-					twaC = twaC * uint64(o.f1) / 100
-					if twaC == 0 {
-						twaC = 1
-					}
-				case o.priceClass == 5:
-					twaDcur = twaDcur * uint64(o.f1) / 100
-					if twaDcur == 0 {
-						twaDcur = 1
-					}
-				case o.priceClass <= 7:
-					actC, actD = true, true
-				}
-				c = c10At(ctx, now)
-				setPrice(a, c, f.assetC, twaC, actC)
-				setPrice(a, c, f.assetD, twaDcur, actD)
-				// the prices this block posts, read off a throw-away run of the price update alone (the fills of
-				// the block happen at these prices; a closed auction's record is gone afterwards)
-				var posted []auctypes.Auction
-				{
-					cc, _ := c.CacheContext()
-					safely(func() { _ = a.NewaucKeeper.AuctionIterator(cc) })
-					posted = a.NewaucKeeper.GetAuctions(cc)
-				}
-				pn, _ := safely(func() { auctionsV2.BeginBlocker(c, a.NewaucKeeper) })
-				class := "ok"
-				if pn {
-					class = "panic"
-				}
-				tr.p("op tick %d %s %d %s %d %s", now, b2s(actC), twaC, b2s(actD), twaDcur, class)
-				for _, au := range posted {
-					tr.p("P %d %s %s", au.AuctionId, au.CollateralTokenAuctionPrice.BigInt(), au.CollateralTokenOraclePrice.BigInt())
-				}
-				observe()
+				e.tick(o)
 			case 3:
-				// a limit bid of the market through MsgDepositLimitBid
-				aus := a.NewaucKeeper.GetAuctions(c)
-				remaining := sdk.NewInt(1000000)
-				cur := int64(5)
-				if len(aus) > 0 {
-					au := aus[o.f2%len(aus)]
-					remaining = au.DebtToken.Amount
-					cur = 0
-					if pr, ok := c10Discount(au); ok {
-						cur = pr.Int64()
-					}
-				}
-				var prem int64
-				switch o.class {
-				case 0, 1, 2: // a little above the current discount: met by a later block
-					prem = cur + int64(1+o.f2%3)
-				case 3, 4:
-					prem = int64(o.f2 % 17)
-				case 5:
-					prem = cur // met by the next block if the discount is still the same whole percent
-				case 6:
-					prem = cur + int64(o.f1%9)
-				default:
-					prem = 31 // above MaxPremiumDiscount
-				}
-				var amt sdk.Int
-				denom := f.denomD
-				switch o.f1 % 10 {
-				case 0:
-					amt = sdk.NewInt(1)
-				case 1:
-					amt = sdk.NewInt(int64(o.f2))
-				case 2, 3:
-					amt = remaining.MulRaw(int64(o.f1)).QuoRaw(100)
-				case 4:
-					amt = remaining
-				case 5:
-					amt = remaining.AddRaw(1)
-				case 6:
-					amt = remaining.MulRaw(3)
-				case 7:
-					amt = remaining.SubRaw(1)
-				case 8:
-					amt = remaining.MulRaw(int64(o.f1)).QuoRaw(300)
-				default:
-					amt = remaining.QuoRaw(2)
-					if o.f2%3 == 0 {
-						denom = f.denomC
-					} else if o.f2%3 == 1 {
-						amt = sdk.ZeroInt()
-					}
-				}
-				if amt.IsNegative() {
-					amt = sdk.NewInt(1)
-				}
-				if o.lit {
-					prem, amt, denom = o.v1, sdk.NewInt(o.v2), f.denomD
-				}
-				k := limKey{prem, o.who}
-				if !limSeen[k] && prem >= 0 {
-					limSeen[k] = true
-					limKeys = append(limKeys, k)
-				}
-				msg := &auctypes.MsgDepositLimitBidRequest{CollateralTokenId: f.assetC, DebtTokenId: f.assetD, PremiumDiscount: sdk.NewInt(prem),
-					Bidder: bidders[o.who].String(), Amount: sdk.Coin{Denom: denom, Amount: amt}}
-				class, derr, _ := execMsg(a, c, msg)
-				if debug && derr != nil {
-					tr.p("# %s", strings.ReplaceAll(derr.Error(), "\n", " "))
-				}
-				tr.p("op dep %d %d %s %s %s", o.who, prem, amt, b2s(denom != f.denomD), class)
-				observe()
+				e.deposit(o)
 			case 0:
-				aus := a.NewaucKeeper.GetAuctions(c)
-				var aid uint64 = 77
-				remaining := sdk.NewInt(1000000)
-				var target *auctypes.Auction
-				if len(aus) > 0 {
-					target = &aus[o.f2%len(aus)]
-					aid = target.AuctionId
-					remaining = target.DebtToken.Amount
-				}
-				var amt sdk.Int
-				denom := f.denomD
-				switch o.class {
-				case 0:
-					amt = sdk.NewInt(1)
-				case 1:
-					amt = sdk.NewInt(int64(o.f2))
-				case 2, 3, 4:
-					amt = remaining.MulRaw(int64(o.f1)).QuoRaw(100)
-				case 5:
-					amt = remaining
-				case 6:
-					amt = remaining.SubRaw(1)
-				case 7:
-					amt = remaining.AddRaw(1)
-				case 8:
-					amt = remaining.MulRaw(3)
-				case 9: // leaves dust
-					amt = remaining.Sub(sdk.NewInt(p.dd).MulRaw(int64(o.f1)).QuoRaw(1000))
-				case 10:
-					amt = remaining.MulRaw(int64(o.f1)).QuoRaw(100)
-					if o.f1%5 == 0 {
-						denom = f.denomC
-					} else if o.f1%5 == 1 {
-						amt = sdk.ZeroInt()
-					}
-				default:
-					amt = remaining.MulRaw(int64(o.f1)).QuoRaw(200)
-				}
-				if amt.IsNegative() {
-					amt = sdk.NewInt(1)
-				}
-				if o.lit {
-					amt, denom = sdk.NewInt(o.v1), f.denomD
-				}
-				msg := &auctypes.MsgPlaceMarketBidRequest{AuctionId: aid, Bidder: bidders[o.who].String(), Amount: sdk.Coin{Denom: denom, Amount: amt}}
-				class, berr, _ := execMsg(a, c, msg)
-				if debug && berr != nil {
-					tr.p("# %s", strings.ReplaceAll(berr.Error(), "\n", " "))
-				}
-				tw, twFound := a.MarketKeeper.GetTwa(c, f.assetD)
-				tr.p("op bid %d %d %s %s %d %s %s", aid, o.who, amt, b2s(denom != f.denomD), tw.Twa, b2s(twFound && tw.IsPriceActive), class)
-				observe()
+				e.bid(o)
 			}
 		}
 	}
